@@ -57,7 +57,7 @@ def _pred_ok(line, out):
 
 
 PROPS["C01"] = {
-    "families": ["C01"],
+    "families": ["C01", "AC"],
     "nontrivial": _pred_ok,
     "rule": "exhaustive small scope (W in {1,2}; <=2 char n-grams of length 1..2 over {a,1} with same-shape type n-grams; optional "
             "word; weights cycling through {-1,0,2}; all texts len<=4 (quick) / <=5 over {a,1}) + random well-formed models "
@@ -67,7 +67,8 @@ PROPS["C01"] = {
             "non-trivial = distinct case whose predictor was built and prediction returned",
     "scopes": {"quick": "176 small models x 30 texts", "thorough": "176 small models x 62 texts"},
     "assumptions": ["no i32 overflow in score accumulation (weights are in the i16 range; sums stay far below 2^31 on the generated sizes)",
-                    "daachorse automata behave as their documented contract (matchesNoSuffix / matchesAll)"],
+                    "daachorse automata behave as their documented contract (matchesNoSuffix / matchesAll); the contract itself is run against the "
+                    "dependency on every run (family AC: char-wise and byte-wise automata, suffix chains, refused constructions, serialise -> deserialise)"],
 }
 PROPS["C06"] = {
     "families": ["C06"],
